@@ -138,6 +138,12 @@ def load_known():
     return out
 
 
+def _read_only(ci):
+    """declares that nothing visible is written (private state of a worker object, 'x.**', is not visible)"""
+    m = getattr(ci.pycls, 'modifies', None)
+    return isinstance(m, tuple) and all(x.endswith('.**') for x in m)
+
+
 def run_property(prop: str, tier: str = 'quick', seed: int = 0, only=None, jobs: int = 16):
     t_start = time.time()
     REG = load_contracts()
@@ -147,7 +153,7 @@ def run_property(prop: str, tier: str = 'quick', seed: int = 0, only=None, jobs:
             return True
         # C14 (purity of the read-only API): every function contract that declares `modifies = ()` carries frame obligations on
         # each of its heap writes; they are all part of C14
-        return prop == 'C14' and ci.kind == 'function' and getattr(ci.pycls, 'modifies', None) == () and not ci.assumed and not ci.bounded
+        return prop == 'C14' and ci.kind == 'function' and _read_only(ci) and not ci.assumed and not ci.bounded
     contracts = [ci for ci in REG.values() if selected(ci) and (only is None or ci.name in only) and not ci.assumed and not ci.bounded]
     bounded_cis = [ci for ci in REG.values() if prop in ci.props and (only is None or ci.name in only) and ci.bounded]
     assumed = [ci for ci in REG.values() if prop in ci.props and ci.assumed]
@@ -289,6 +295,14 @@ def aggregate(prop, tier, seed, contracts, results, split_errors, known, t_start
             if w is not None:
                 w['solver'] = tried[0]['solver'] if tried else {}
                 confirmed = w
+        if confirmed is None and getattr(ci.pycls, 'witness_via', None):
+            # the obligation is about locals at a cut point: a failing input is searched through the document-level contract
+            via = REGISTRY[ci.pycls.witness_via]
+            ran, hit = verify.bounded_standin(via, 600 if tier == 'quick' else 6000, rng)
+            if hit is not None:
+                hit['solver'] = tried[0]['solver'] if tried else {}
+                hit['found_by'] = f'document-level contract {via.name} (witness for the cut-point obligation {oid})'
+                confirmed = hit
         if confirmed is None:
             if name in unproved_names:
                 # the function is (partly) outside the subset: its bounded stand-in decides, an unconfirmed abstract
